@@ -45,7 +45,8 @@ type Result struct {
 }
 
 const (
-	envWorker = "VERIF_WORKER"
+	readyMagic = "\x00\x01VERIF-WORKER-READY\x02\x03"
+	envWorker  = "VERIF_WORKER"
 	// AddressSpaceLimit is the worker's RLIMIT_AS.
 	AddressSpaceLimit = 8 << 30
 	// WallTimeout is how long the parent waits for one case before looking at the worker's CPU time.
@@ -70,6 +71,33 @@ func topRepoFrame(stack string) string {
 	return "unknown"
 }
 
+// panicOrigin returns the function in which the panic was raised: the first frame below the
+// runtime's panic machinery.
+func panicOrigin(stack string) string {
+	lines := strings.Split(stack, "\n")
+	seenPanic := false
+	for _, line := range lines {
+		if strings.HasPrefix(line, "\t") || line == "" {
+			continue
+		}
+		f := strings.TrimSpace(line)
+		if i := strings.LastIndex(f, "("); i > 0 {
+			f = f[:i]
+		}
+		if strings.HasPrefix(f, "panic") {
+			seenPanic = true
+			continue
+		}
+		if !seenPanic || strings.HasPrefix(f, "runtime.") || strings.HasPrefix(f, "runtime/") {
+			continue
+		}
+		f = strings.TrimPrefix(f, "github.com/google/gce-tcb-verifier/")
+		f = strings.TrimPrefix(f, "github.com/google/")
+		return f
+	}
+	return "unknown"
+}
+
 func cpuNow() time.Duration {
 	var ru syscall.Rusage
 	syscall.Getrusage(syscall.RUSAGE_SELF, &ru)
@@ -84,8 +112,21 @@ func MaybeWorker() {
 	lim := &syscall.Rlimit{Cur: AddressSpaceLimit, Max: AddressSpaceLimit}
 	syscall.Setrlimit(syscall.RLIMIT_AS, lim)
 	debug.SetGCPercent(50)
-	in := bufio.NewReader(os.Stdin)
-	out := bufio.NewWriter(os.Stdout)
+	// The protocol owns the original stdin/stdout; the code under test must not be able to corrupt
+	// the framing by printing, nor to block on reading the terminal: fd 0 and fd 1 are re-pointed at
+	// /dev/null after duplicating them.
+	inFd, _ := syscall.Dup(0)
+	outFd, _ := syscall.Dup(1)
+	if null, err := os.OpenFile(os.DevNull, os.O_RDWR, 0); err == nil {
+		syscall.Dup2(int(null.Fd()), 0)
+		syscall.Dup2(int(null.Fd()), 1)
+	}
+	in := bufio.NewReader(os.NewFile(uintptr(inFd), "proto-in"))
+	out := bufio.NewWriter(os.NewFile(uintptr(outFd), "proto-out"))
+	// Package initialisers of the code under test may already have printed to stdout; the parent
+	// skips everything up to this marker.
+	out.WriteString(readyMagic)
+	out.Flush()
 	for {
 		var hdr [8]byte
 		if _, err := io.ReadFull(in, hdr[:]); err != nil {
@@ -119,6 +160,9 @@ func serve(name string, payload []byte) (res Result) {
 		if r := recover(); r != nil {
 			st := string(debug.Stack())
 			res = Result{Outcome: "panic", Msg: fmt.Sprint(r), Frame: topRepoFrame(st)}
+			if o := panicOrigin(st); o != res.Frame && o != "unknown" {
+				res.Frame += "@" + o
+			}
 		}
 		runtime.ReadMemStats(&ms1)
 		res.Alloc = ms1.TotalAlloc - ms0.TotalAlloc
@@ -192,6 +236,23 @@ func start() (*worker, error) {
 	w.out = bufio.NewReaderSize(so, 1<<16)
 	if err := cmd.Start(); err != nil {
 		return nil, err
+	}
+	// skip whatever the worker's package initialisers printed, up to the ready marker
+	matched := 0
+	for matched < len(readyMagic) {
+		c, err := w.out.ReadByte()
+		if err != nil {
+			cmd.Process.Kill()
+			cmd.Wait()
+			return nil, fmt.Errorf("worker ended before it was ready: %v; stderr: %s", err, w.stderr.String())
+		}
+		if c == readyMagic[matched] {
+			matched++
+		} else if c == readyMagic[0] {
+			matched = 1
+		} else {
+			matched = 0
+		}
 	}
 	return w, nil
 }
@@ -267,6 +328,7 @@ func Run(name string, payload []byte) Result {
 			ch <- rd{res: r}
 		}()
 		deadline := time.After(WallTimeout)
+		extensions := 0
 		for {
 			select {
 			case r := <-ch:
@@ -304,11 +366,38 @@ func Run(name string, payload []byte) Result {
 					Restarts++
 					return Result{Outcome: "infra", Msg: fmt.Sprintf("no verdict after %v wall, only %v CPU", WallTimeout, used)}
 				}
+				extensions++
+				if extensions > 4 {
+					// neither finishing nor burning CPU at a rate that would reach the CPU limit: blocked
+					w.kill()
+					cur = nil
+					Restarts++
+					return Result{Outcome: "infra", Msg: fmt.Sprintf("no verdict after %d extensions, %v CPU", extensions, used)}
+				}
 				deadline = time.After(WallTimeout / 2)
 			}
 		}
 	}
 	return Result{Outcome: "infra", Msg: "worker unavailable"}
+}
+
+// RunConfirmed runs the case and, when its resource figures exceed the given limits, runs it a
+// second time and keeps the smaller figures: one-time initialisation (lazily built tables, first
+// use of a subsystem) must not be charged to the input.
+func RunConfirmed(name string, payload []byte, allocLimit uint64, cpuLimitMs int64) Result {
+	r := Run(name, payload)
+	if (r.Outcome == "ok" || r.Outcome == "error") && (r.Alloc > allocLimit || r.CPUms > cpuLimitMs) {
+		r2 := Run(name, payload)
+		if r2.Outcome == r.Outcome {
+			if r2.Alloc < r.Alloc {
+				r.Alloc = r2.Alloc
+			}
+			if r2.CPUms < r.CPUms {
+				r.CPUms = r2.CPUms
+			}
+		}
+	}
+	return r
 }
 
 // Shutdown ends the worker.
